@@ -128,7 +128,7 @@ contract(
     returns=TStr,
     raises={"KeyError": (lambda c: Or(c.info.ino.is_none, c.info.mtime.is_none, c.info.size.is_none), None)},
     ensures=lambda c: c.result == CK_info(c.info),
-    props=["C13", "C07", "C01", "C02", "C03"],
+    props=["C13", "C07", "C01", "C02", "C03", "C05", "C10"],
     doc="validity token = function of exactly (inode, mtime, size) of the stat result",
 )
 
@@ -162,7 +162,7 @@ contract(
     returns=TOpt(TTuple([Meta, HashInfo])),
     requires=lambda c: And(c.info.ino.is_some, c.info.mtime.is_some, c.info.size.is_some),
     ensures=_get_post,
-    props=["C13", "C01", "C02", "C03"],
+    props=["C13", "C01", "C02", "C03", "C05", "C10"],
     doc="a row is a hit only if its token equals the token of the stat in force and its version is not newer; "
         "legacy rows (no version, 'md5') are returned as md5-dos2unix",
 )
@@ -225,7 +225,7 @@ contract(
     returns=TTuple([TOpt(Meta), TOpt(HashInfo)]),
     requires=lambda c: And(state_inv(table_of(c.h, c.self)), _info_ok(c)),
     ensures=_get_pub_post,
-    props=["C13", "C07", "C01", "C02", "C03"],
+    props=["C13", "C07", "C01", "C02", "C03", "C05", "C10"],
     doc="a hit equals the hash of the file's current bytes (StateInv + token-sound); never a hit for a non-local filesystem",
 )
 
@@ -284,7 +284,7 @@ contract(
     modifies=lambda c: [("HashesCache.table", c.h.get("State.hashes", c.self))],
     ensures=lambda c: And(state_inv(table_of(c.h, c.self)),
                           Implies(Not(c.h.get("FileSystem.is_local", c.fs)), table_of(c.h, c.self) == table_of(c.h0, c.self))),
-    props=["C13", "C01", "C02", "C03"],
+    props=["C13", "C01", "C02", "C03", "C05", "C10"],
     doc="StateInv is preserved by every write of the hashes table; nothing is written for a non-local filesystem",
 )
 
